@@ -444,6 +444,10 @@ class PathEnumerator:
                 elif isinstance(tgt, FunctionInfo) and tgt.kind == "function" and tgt.module is fr.fn.module and tgt is not fr.fn and self._single_use(tgt, fr):
                     # a function that exists for this one caller is a piece of it (split for readability)
                     d, info = tgt.node, tgt
+                elif isinstance(tgt, FunctionInfo) and tgt.kind == "function" and tgt.module is fr.fn.module and tgt is not fr.fn and self._continues_builder(v, tgt, p):
+                    # ``add_measurements(result, ...)``: a function of this module that is handed the circuit under construction and adds to it is a
+                    # piece of this builder (the steps it adds are steps of the caller)
+                    d, info = tgt.node, tgt
                 elif isinstance(tgt, FunctionInfo) and tgt.kind == "function" and tgt.module is fr.fn.module and tgt is not fr.fn \
                         and isinstance(st, (ast.Assign, ast.AnnAssign)) and self._extended_here(st, fr):
                     # ``c = other_builder(...)`` followed by ``c.add(...)``: this function continues building what the other one started;
@@ -570,6 +574,28 @@ class PathEnumerator:
         calls = self._call_sites(g.name)
         refs = self._call_sites("&" + g.name)
         return calls == 1 and refs <= 1      # the call itself contains one load of the name
+
+    def _continues_builder(self, call: ast.Call, g: FunctionInfo, p: Path) -> bool:
+        """the callee's first parameter is a (declarative) circuit, the caller passes a circuit it is building (a local bound to a fresh construction), and
+        the callee adds to that parameter"""
+        a = g.node.args
+        if not a.args or self._inline_depth > 2:
+            return False
+        first = a.args[0]
+        ann = ast.unparse(first.annotation) if first.annotation is not None else ""
+        if "DeclarativeCircuit" not in ann:
+            return False
+        arg0 = call.args[0] if call.args else next((k.value for k in call.keywords if k.arg == first.arg), None)
+        if not isinstance(arg0, ast.Name):
+            return False
+        v = p.env.get(arg0.id)
+        if v is None or not (v[0] in ("new", "var", "call") and "DeclarativeCircuit" in show(v)[:60]):
+            return False
+        for n in ast.walk(g.node):
+            if isinstance(n, ast.Call) and isinstance(n.func, ast.Attribute) and n.func.attr in ("add", "add_operation", "add_sub_circuit") \
+                    and isinstance(n.func.value, ast.Name) and n.func.value.id == first.arg:
+                return True
+        return False
 
     def _extended_here(self, st: ast.stmt, fr: Frame) -> bool:
         tg = st.targets[0] if isinstance(st, ast.Assign) else st.target
